@@ -61,18 +61,28 @@ class ListObj:
 
 
 class DictObj:
-    __slots__ = ("d", "oid", "ordered")
+    """`log`: the insertion history as a z3 Seq[Val] of (key, value) pairs - the dict's content is a function of it;
+    `d` is only meaningful while every key was concrete (`symbolic` False)"""
+    __slots__ = ("d", "oid", "ordered", "log", "symbolic", "hist")
 
-    def __init__(self, d=None):
+    def __init__(self, d=None, log=None):
         self.d = d if d is not None else {}
         self.ordered = False
+        self.log = log
+        self.symbolic = log is not None
+        #: (key, value) insertions so far while only insertions happened (None: unknown history)
+        self.hist = [] if d is None else None
 
 
 class SetObj:
-    __slots__ = ("s",)
+    """`log`: the insertion history as a z3 Seq[Val]; `s` (deduplicated items) is only meaningful while `symbolic` is False"""
+    __slots__ = ("s", "log", "symbolic", "hist")
 
-    def __init__(self, s=None):
+    def __init__(self, s=None, log=None):
         self.s = s if s is not None else []
+        self.log = log
+        self.symbolic = log is not None
+        self.hist = list(self.s)
 
 
 class Obj:
